@@ -13,12 +13,17 @@ import base  # noqa: E402
 import dnslib  # noqa: E402
 
 SUFFIX_POOL = ["", "test", "example.test", "a.example.test", "b.example.test", "deep.a.example.test", "xexample.test",
-               "corp", "lan.corp", "other", "example.other", "invalid"]
+               "corp", "lan.corp", "other", "example.other", "invalid", "tracker.block", "work.corp", "k"]
 NX, SERVFAIL, REFUSED = 3, 2, 5
 
 
+def ascii_lower(s):
+    """ASCII case folding only (RFC 4343): 'K' (U+212A KELVIN SIGN) is not 'k'."""
+    return "".join(chr(ord(c) + 32) if "A" <= c <= "Z" else c for c in s)
+
+
 def labels(name):
-    return [l for l in name.lower().split(".") if l]
+    return [l for l in ascii_lower(name).split(".") if l]
 
 
 def model(routes, qname):
@@ -35,7 +40,7 @@ def model(routes, qname):
 
 
 def randcase(rnd, s):
-    return "".join(c.upper() if rnd.random() < 0.5 else c.lower() for c in s)
+    return "".join((c.upper() if rnd.random() < 0.5 else c.lower()) if c.isascii() else c for c in s)
 
 
 def gen_table(rnd):
@@ -82,6 +87,10 @@ def gen_names(rnd, routes, n):
             nm = base_s  # the suffix itself (may be the root)
         elif roll < 0.3:
             nm = "x" + base_s if base_s else "x"  # near miss: label with a prefix glued on
+            if "k" in base_s and rnd.random() < 0.7:
+                # near miss: a character that is 'k' only under Unicode case folding, in place of a 'k' of the suffix
+                pre = rnd.choice(["", "www.", "a.b."])
+                nm = pre + base_s.replace("k", "\u212a", 1)
         elif roll < 0.4:
             nm = ".".join(rnd.choice(["a", "b", "www", "deep", "example", "test", "corp"]) for _ in range(rnd.randint(1, 6)))
         else:
@@ -154,13 +163,13 @@ def main():
                         time.sleep(0.002)
                         saw = []
                         for i, u in enumerate(ups):
-                            new = [e for e in u.events[marks[i]:] if e["kind"] == "query" and (e.get("qname") or "").lower() == qname.lower()]
+                            new = [e for e in u.events[marks[i]:] if e["kind"] == "query" and ascii_lower(e.get("qname") or "") == ascii_lower(qname.encode().decode("latin1"))]
                             if new:
                                 saw.append(i + 1)
                         want = model(routes, qname)
                         leg.eval()
                         depth = -1 if want is None else max(len(labels(s)) for s in want["suffixes"] if len(labels(s)) <= len(labels(qname)) and (not labels(s) or labels(qname)[-len(labels(s)):] == labels(s)))
-                        mixed = qname != qname.lower()
+                        mixed = qname != ascii_lower(qname)
                         replay = {"engine": "c15-e2e", "config": conf, "qname": qname, "qtype": qtype, "rd": rd, "table": routes}
                         if r is None:
                             leg.violation("C15/no-response", "%s: %s" % (qname, err), replay)
